@@ -2,6 +2,7 @@ package main
 
 import (
 	"fmt"
+	"sync"
 
 	rt "github.com/textwire/textwire/v2/zzverifrt"
 )
@@ -80,16 +81,24 @@ type orderDivergence struct{ msg string }
 func runWithOrders(prefix []int, expect []orderPoint, f func() string) orderRun {
 	var run orderRun
 	idx := 0
+	// The hook may be called from goroutines started by the code under test: it is serialised, and a
+	// divergence is recorded and raised only after f has returned (a panic in a foreign goroutine would
+	// kill the process instead of reaching the explorer).
+	var mu sync.Mutex
+	diverged := ""
 	rt.OrderHook = func(site, n int) []int {
+		mu.Lock()
+		defer mu.Unlock()
 		choice := 0
 		if n >= 2 {
-			if idx < len(prefix) {
+			if diverged == "" && idx < len(prefix) {
 				choice = prefix[idx]
 				if expect != nil && (expect[idx].Site != site || expect[idx].N != n) {
-					panic(orderDivergence{fmt.Sprintf("replay diverged at choice point %d: site %d/%d entries, recorded site %d/%d entries", idx, site, n, expect[idx].Site, expect[idx].N)})
-				}
-				if choice >= orderAnswers(n) {
-					panic(orderDivergence{fmt.Sprintf("answer %d out of range at choice point %d (%d entries)", choice, idx, n)})
+					diverged = fmt.Sprintf("replay diverged at choice point %d: site %d/%d entries, recorded site %d/%d entries", idx, site, n, expect[idx].Site, expect[idx].N)
+					choice = 0
+				} else if choice >= orderAnswers(n) {
+					diverged = fmt.Sprintf("answer %d out of range at choice point %d (%d entries)", choice, idx, n)
+					choice = 0
 				}
 			}
 			run.Points = append(run.Points, orderPoint{site, n, choice})
@@ -99,6 +108,15 @@ func runWithOrders(prefix []int, expect []orderPoint, f func() string) orderRun 
 	}
 	defer func() { rt.OrderHook = nil }()
 	run.Outcome = f()
+	mu.Lock()
+	d := diverged
+	if d == "" && idx < len(prefix) {
+		d = fmt.Sprintf("replay diverged: the execution ended after %d choice points, the recorded prefix has %d", idx, len(prefix))
+	}
+	mu.Unlock()
+	if d != "" {
+		panic(orderDivergence{d})
+	}
 	return run
 }
 
@@ -110,6 +128,7 @@ type orderExplorer struct {
 	outcomes   map[string][]int // distinct outcome -> first answer vector producing it
 	diverged   string
 	budget     int64
+	repeat     int // the default execution is run this many times; all runs must agree (0 = once)
 }
 
 // explore runs every execution with at most `bound` non-default answers.
@@ -135,6 +154,33 @@ func (e *orderExplorer) explore(f func() string) {
 		}()
 		if e.diverged != "" {
 			return
+		}
+		if len(prefix) == 0 {
+			// the same answers must give the same execution: anything else is nondeterminism the
+			// explorer does not control (goroutine scheduling, clocks, randomness, addresses)
+			for r := 1; r < e.repeat && e.diverged == ""; r++ {
+				func() {
+					defer func() {
+						if x := recover(); x != nil {
+							if d, ok := x.(orderDivergence); ok {
+								e.diverged = d.msg
+								return
+							}
+							panic(x)
+						}
+					}()
+					again := runWithOrders(nil, nil, f)
+					e.executions++
+					if again.Outcome != run.Outcome {
+						e.diverged = fmt.Sprintf("the default answers gave two outcomes: %.300s  ||  %.300s", run.Outcome, again.Outcome)
+					} else if len(again.Points) != len(run.Points) {
+						e.diverged = fmt.Sprintf("the default answers gave %d and then %d choice points", len(run.Points), len(again.Points))
+					}
+				}()
+			}
+			if e.diverged != "" {
+				return
+			}
 		}
 		e.executions++
 		e.points += int64(len(run.Points))
